@@ -226,7 +226,10 @@ class Body:
                 else:
                     base = ('field', base, e['name'])
             elif k == 'downcast':
-                base = ('as', base, e['variant'])
+                if isinstance(base, tuple) and base[0] == 'agg' and base[1] == 'adt' and str(base[2]).endswith('::' + str(e['variant'])):
+                    pass        # the value is a literal of exactly that variant: its fields are the literal's operands
+                else:
+                    base = ('as', base, e['variant'])
             elif k == 'index':
                 base = ('index', base, self.tree_of_local(e['local'], depth + 1, env))
             elif k == 'cindex':
@@ -277,7 +280,7 @@ class Body:
             kind = r['kind']
             ops = tuple(self.tree_of_operand(x, depth, env) for x in r['ops'])
             if kind == 'adt':
-                return ('agg', 'adt', r['def'] + '::' + r['variant'] if r.get('is_enum') else r['def'], ops, tuple(r['fields']))
+                return ('agg', 'adt', r['def'] + '::' + r['variant'] if r.get('is_enum') else r['def'], ops, tuple(r['fields']), r.get('vi'))
             if kind == 'closure':
                 return ('agg', 'closure', r['id'], ops, ())
             return ('agg', kind, r.get('ty'), ops, ())
